@@ -548,6 +548,13 @@ def c19(tier, seed):
                                             "libstdc++ and the harness itself are part of the observed process; leak keys are attributed to the first library frame"], floors)
 
 
+# --------------------------------------------------------------------------------------------- C18
+@prop("C18")
+def c18(tier, seed):
+    from . import c18 as m
+    return m.check(tier, seed)
+
+
 def prebuild():
     """build every harness binary the checks use (called by setup), in parallel"""
     from concurrent.futures import ThreadPoolExecutor
@@ -558,6 +565,6 @@ def prebuild():
             ("exc", "mon_hist", HIST_SRCS, {}), ("plain", "mon_hist", HIST_SRCS, {}), ("exc-asan", "mon_hist", HIST_SRCS, {}), ("asan", "mon_hist", HIST_SRCS, {}),
             ("plain", "mon_cat", CAT_SRCS, {}), ("exc", "mon_cat", CAT_SRCS, {}), ("exc-asan", "mon_cat", CAT_SRCS, {}),
             ("plain", "mon_cabi", CABI_SRCS, {"whole_archive": True}), ("exc", "mon_cabi", CABI_SRCS, {"whole_archive": True}), ("exc-asan", "mon_cabi", CABI_SRCS, {"whole_archive": True}),
-            ("asan", "mon_mem", MEM_SRCS, {"whole_archive": True}), ("exc-asan", "mon_mem", MEM_SRCS, {"whole_archive": True}), ("plain", "mon_mem", MEM_SRCS, {"whole_archive": True})]
+            ("asan", "c18_truth", ["common.cpp", "c18_truth.cpp"], {}), ("asan", "mon_mem", MEM_SRCS, {"whole_archive": True}), ("exc-asan", "mon_mem", MEM_SRCS, {"whole_archive": True}), ("plain", "mon_mem", MEM_SRCS, {"whole_archive": True})]
     with ThreadPoolExecutor(6) as ex:
         list(ex.map(lambda j: build.build_bin(j[0], j[1], j[2], **j[3]), jobs))
